@@ -20,6 +20,12 @@ modes
   eol        append to the end of the anchor line
   prebrace   insert before the last '{' of the anchor line (loop contracts)
   presemi    insert before the last ';' of the anchor line (do-while contracts)
+  wrapret    anchor line is 'return EXPR;': becomes 'return (GHOST, EXPR);' --
+             the only safe way to attach a ghost expression to a return that is
+             the brace-less body of an if
+
+'before' and 'after' refuse to insert next to a brace-less if/else/loop body
+(the inserted statement would capture or release the body).
 
 The anchor is compared after whitespace normalisation against each line of the
 function's extent (substring match).  It must match exactly one line unless
@@ -142,7 +148,28 @@ def weave_file(src_path, spec_items):
             raise WeaveError(f'{it["where"]}: anchor {it["anchor"]!r} matched {len(hits)} lines in {it["func"]}')
         line = lines[idx]
         body = line.rstrip('\n')
-        if mode == 'before':
+        if mode in ('before', 'after'):
+            # guard: the anchor line must not be the brace-less body of a control statement,
+            # and (for 'after') must not itself be a brace-less control header
+            j = idx - 1
+            while j > ob and lines[j].strip() == '':
+                j -= 1
+            prev = lines[j].rstrip()
+            prevc = re.sub(r'/\*.*?\*/', '', prev).rstrip()
+            if mode == 'before' and (prevc.endswith(')') or prevc.endswith('else')) and not prevc.lstrip().startswith(('__CPROVER', 'assert')):
+                raise WeaveError(f'{it["where"]}: anchor line is a brace-less body (previous line {prev.strip()!r}); use wrapret or another anchor')
+            bodyc = re.sub(r'/\*.*?\*/', '', body).rstrip()
+            if mode == 'after' and re.match(r'\s*(if|for|while|else)\b', bodyc) and not bodyc.endswith(('{', ';')):
+                raise WeaveError(f'{it["where"]}: cannot insert after a brace-less control header')
+        if mode == 'wrapret':
+            m = re.match(r'^(\s*return\s+)(.*?)(;\s*)$', body)
+            if not m:
+                raise WeaveError(f'{it["where"]}: wrapret anchor is not a simple return statement')
+            a = offs[idx] + len(m.group(1))
+            b = offs[idx] + len(m.group(1)) + len(m.group(2))
+            inserts.append((a, seq, '(' + text.strip() + ', '))
+            inserts.append((b, seq, ')'))
+        elif mode == 'before':
             inserts.append((offs[idx], seq, text))
         elif mode == 'after':
             inserts.append((offs[idx + 1], seq, text))
